@@ -3,9 +3,9 @@
    types); N / positive / nat stay as extracted inductives.  No Extract Constant directives. *)
 Require Extraction.
 From Coq Require Import ExtrOcamlBasic.
-From A2 Require Import Base.Bytes Gen.Tables Img.Nibble Img.Track525 Img.Sony Img.Track35 Gen.SkewTabs Img.Skew Fs.Spec Fs.ProdosTree Fs.CpmExtents Img.Codec Pack.Fimg Pack.PascalText Pack.Text Sys.Parsers Sys.Mkdsk Lang.Tokens Lang.Escape Lang.Merlin Gen.Opcodes Lang.Asm Lang.Renumber Gen.Guards Lang.Minify.
+From A2 Require Import Base.Bytes Gen.Tables Img.Nibble Img.Track525 Img.Sony Img.Track35 Gen.SkewTabs Img.Skew Fs.Spec Fs.ProdosTree Fs.CpmExtents Img.Codec Pack.Fimg Pack.PascalText Pack.Text Pack.Records Sys.Parsers Sys.Mkdsk Lang.Tokens Lang.Escape Lang.Merlin Gen.Opcodes Lang.Asm Lang.Renumber Gen.Guards Lang.Minify.
 Extraction Language OCaml.
-Extraction "model.ml" N.of_nat N.to_nat encode62 decode62 encode53 decode53 enc44 dec44 run_track bit_count_525 fmt13 fmt16 sony_encode sony_decode run_track35
+Extraction "model.ml" pack_rec r_chunks r_eof N.of_nat N.to_nat encode62 decode62 encode53 decode53 enc44 dec44 run_track bit_count_525 fmt13 fmt16 sony_encode sony_decode run_track35
   records do_cells_do do_cells_po do_cells_cpm woz_cells_do woz_cells_po woz_cells_cpm d13_cells woz35_cells fat_cells cpm_cells_kind imd_skew_table td0_skew_table
   step cpm_entries cpm_read cpm_eof e_idx e_rc e_lb e_ptrs pd_layout pd_read l_storage l_key l_blocks l_master cs_end reported_free files used f_chunks f_isdir f_owned norm_idx p_total meta_units
   crc32 crc16 td0_pack td0_unpack imd_compress imd_expand dot2mg_bytes
